@@ -20,9 +20,9 @@ arr_real FIRDecimator::process(const arr_real& in) {
     DSPLIB_ASSERT(nx % decim_ == 0, "Input frame length must be a multiple of the 'decim'");
 
     arr_real x(nd + nx);
-    std::memcpy(x.data(), d_.data(), nd * sizeof(real_t));
-    std::memcpy(x.data() + nd, in.data(), nx * sizeof(real_t));
-    std::memcpy(d_.data(), x.data() + nx, nd * sizeof(real_t));
+    std::copy_n(d_.data(), nd, x.data());
+    std::copy_n(in.data(), nx, x.data() + nd);
+    std::copy_n(x.data() + nx, nd, d_.data());
 
     auto y = dsplib::zeros(nx / decim_);
     const auto* px = x.data();
